@@ -133,6 +133,10 @@ pub fn run<A: Default + Send>(
                             break;
                         }
                         let payload = make_case(i);
+                        // an empty payload means "this index is outside the bound": not executed
+                        if payload.is_empty() {
+                            continue;
+                        }
                         let (outcome, dead) = run_one(&mut w, cfg, &payload);
                         if dead {
                             if fresh {
